@@ -1,2 +1,20 @@
-(* further commands are added here as more models are extracted *)
-let handle (line : string) : string = "!UNKNOWN " ^ line
+(* further commands: <cmd>\t<arg>\t<arg>... (tab separated because arguments contain spaces) *)
+open Model
+open Sexp
+
+let string_of_bytes (l : byte list) : string =
+  let b = Buffer.create 64 in
+  List.iter (fun x -> Buffer.add_char b (Char.chr (Obj.magic x : int))) l;
+  Buffer.contents b
+
+let handle (line : string) : string =
+  match String.split_on_char '\t' line with
+  | ["get"; path; data] ->
+      let x = parse_path { s = path; i = 0 } in
+      let d = parse_jv { s = data; i = 0 } in
+      string_of_bytes (model_get x d)
+  | ["match"; eq; data] ->
+      let e = parse_eqn { s = eq; i = 0 } in
+      let d = parse_jv { s = data; i = 0 } in
+      string_of_bytes (model_match e d)
+  | _ -> "!UNKNOWN " ^ line
